@@ -78,7 +78,10 @@ def check_batch(lines, cfg_key, conns, props, workdir, tag, keep=False):
     wall = time.time() - t0
     ok = os.path.exists(of)
     if not ok:
-        return None, dict(wall=wall, log=pr.stdout[-6000:])
+        i = pr.stdout.find("Error:")
+        msg = pr.stdout[i:i + 1500] if i >= 0 else ""
+        j = pr.stdout.find("The error occurred when TLC was evaluating")
+        return None, dict(wall=wall, log=(msg + "\n...\n" + (pr.stdout[j:j + 2500] if j >= 0 else pr.stdout[-2500:])))
     with open(of) as f:
         out = json.load(f)
     m = re.search(r"(\d+) states generated, (\d+) distinct states", pr.stdout)
